@@ -46,7 +46,7 @@ func (g *Gen) coroBody(tag string, others []string) *Func {
 	)}})
 	nsteps := 1 + g.R.Intn(4)
 	for i := 0; i < nsteps; i++ {
-		k := g.R.Intn(8)
+		k := g.R.Intn(11)
 		g.cover("costep:%d", k)
 		switch k {
 		case 0, 1:
@@ -67,6 +67,26 @@ func (g *Gen) coroBody(tag string, others []string) *Func {
 				&SCall{Call: co("yield", N(iv), Bin("*", N(iv), N(st)))})})
 		case 4:
 			b.Stmts = append(b.Stmts, CallSN("emit", Str(tag+":status"), co("status", co("running")), Bin("==", co("running"), &ENil{})))
+			// status of every created coroutine as seen from inside (resumers and their resumers are "normal")
+			b.Stmts = append(b.Stmts, &SGenFor{Names: []string{"i", "h"}, Exprs: []Expr{CallN("ipairs", N("CO"))}, Body: Blk(
+				CallSN("emit", Str(tag+":sees"), N("i"), co("status", N("h")), Bin("==", N("h"), co("running"))))})
+			g.cover("co:status-of-all")
+		case 10:
+			// protected calls that fail (also with a failing message handler) must not spoil later legal yields
+			b.Stmts = append(b.Stmts, CallSN("emit", Str(tag+":xpcall-failing-handler"),
+				&EParen{X: CallN("xpcall", Fn(nil, false, Blk(CallSN("error", Str("Ea")))), Fn([]string{"m"}, false, Blk(CallSN("error", Str("Eh")))))},
+				&EParen{X: CallN("pcall", Fn(nil, false, Blk(Return(Idx(CallN("setmetatable", &ETable{}, &ETable{Items: []TItem{{Kind: TName, Name: "__index", Val: Fn([]string{"t", "k"}, false, Blk(CallSN("error", Str("Em"))))}}}), Str("x"))))))}))
+			g.cover("co:failing-protected-calls")
+		case 8:
+			// resume some coroutine by handle: possibly the own resumer, a grandparent (normal), itself (running) or a dead one
+			b.Stmts = append(b.Stmts, CallSN("emit", Str(tag+":resume-any"), co("resume", Idx(N("CO"), Num(float64(1+g.R.Intn(4)))), Num(5))))
+			g.cover("co:resume-by-handle")
+		case 9:
+			// a wrapped coroutine that dies by an error inside this coroutine, then status/running of this one
+			w := g.fresh("w")
+			b.Stmts = append(b.Stmts, Local1(w, co("wrap", Fn(nil, false, Blk(CallSN("error", Str("Ewrapped")))))),
+				CallSN("emit", Str(tag+":wrapped-error"), &EParen{X: CallN("pcall", N(w))}, &EParen{X: CallN("pcall", N(w))}, co("status", co("running"))))
+			g.cover("co:wrapped-error-inside")
 		case 5:
 			// resume another coroutine from inside (nested resume; status normal seen from inside)
 			if len(others) > 0 {
@@ -110,7 +130,7 @@ func (g *Gen) coroBody(tag string, others []string) *Func {
 // CoroutineProgram generates a program about coroutine transfer (C06).
 func (g *Gen) CoroutineProgram() *Chunk {
 	b := &Block{}
-	b.Stmts = append(b.Stmts, Assign1(N("SHARED"), &ETable{}))
+	b.Stmts = append(b.Stmts, Assign1(N("SHARED"), &ETable{}), Assign1(N("CO"), &ETable{}))
 	n := 1 + g.R.Intn(4)
 	var names []string
 	wrapped := map[string]bool{}
@@ -123,7 +143,7 @@ func (g *Gen) CoroutineProgram() *Chunk {
 			wrapped[name] = true
 			g.cover("co:wrap")
 		} else {
-			b.Stmts = append(b.Stmts, Local1(name, co("create", &EFunc{F: f})))
+			b.Stmts = append(b.Stmts, Local1(name, co("create", &EFunc{F: f})), Assign1(Idx(N("CO"), Bin("+", Un("#", N("CO")), Num(1))), N(name)))
 			g.cover("co:create")
 			names = append(names, name)
 		}
